@@ -31,6 +31,10 @@ def rng_range(a, b):
     return "%d-%d" % (a, b) if b > a else "%d" % a
 
 
+REDOX_ACTIVE = ("Fe", "Mn", "N(5)", "P")
+REDOX_FREE = False      # set by checks whose comparison would be ill-conditioned by a floating pe
+
+
 def solution(rng, num, nelem=None, units="mmol/kgw", temp=None, ph=None, pe=None, charge="auto",
              elements=None, conc=(1e-3, 50.0), water=None, redox=False, desc=None, density=False):
     """SOLUTION block; concentrations in 'units' (numbers given for mmol scale)."""
@@ -40,6 +44,8 @@ def solution(rng, num, nelem=None, units="mmol/kgw", temp=None, ph=None, pe=None
         elements = ["Na", "Cl"] if rng.random() < 0.8 else []
         while len(elements) < k:
             e = rng.choice(MAJOR if rng.random() < 0.7 else MINOR)
+            if REDOX_FREE and e in REDOX_ACTIVE:
+                continue
             if e not in elements:
                 elements.append(e)
     lines = ["SOLUTION %s%s" % (num, (" " + desc) if desc else "")]
@@ -82,6 +88,10 @@ def solution(rng, num, nelem=None, units="mmol/kgw", temp=None, ph=None, pe=None
     for e in elements:
         suffix = " charge" if e == chg_on else ""
         lines.append(" %s %s%s" % (e, fmt(cs[e]), suffix))
+    if REDOX_FREE:
+        # dissolved oxygen pins the redox state; without it pe floats and results become a discontinuous
+        # function of the last digits of total O / total H
+        lines.append(" O(0) %s" % fmt(0.2 if units.startswith("mmol") else 2e-4))
     return "\n".join(lines) + "\n"
 
 
@@ -104,8 +114,10 @@ def reaction(rng, num, steps=None):
 
 def eq_phases(rng, num, phases=None, nmax=3):
     if phases is None:
-        phases = rng.sample(["Calcite", "Dolomite", "Gypsum", "Quartz", "Chalcedony", "Barite", "Celestite", "Fluorite",
-                             "Gibbsite", "Goethite", "CO2(g)"], rng.randint(1, nmax))
+        pool = ["Calcite", "Dolomite", "Gypsum", "Quartz", "Chalcedony", "Barite", "Celestite", "Fluorite", "Gibbsite", "Goethite", "CO2(g)"]
+        if REDOX_FREE:
+            pool.remove("Goethite")
+        phases = rng.sample(pool, rng.randint(1, nmax))
     lines = ["EQUILIBRIUM_PHASES %s" % num]
     for p in phases:
         si = 0.0
@@ -154,7 +166,7 @@ def gas_phase(rng, num, fixed=None):
     else:
         lines += [" -fixed_volume", " -volume %s" % fmt(loguni(rng, 0.1, 5))]
     lines.append(" -temperature 25")
-    for g in rng.sample(["CO2(g)", "N2(g)", "O2(g)", "CH4(g)"], rng.randint(1, 3)):
+    for g in rng.sample(["CO2(g)", "H2O(g)"] if REDOX_FREE else ["CO2(g)", "N2(g)", "O2(g)", "CH4(g)"], rng.randint(1, 2 if REDOX_FREE else 3)):
         lines.append(" %s %s" % (g, fmt(loguni(rng, 1e-3, 0.5))))
     return "\n".join(lines) + "\n"
 
@@ -277,7 +289,7 @@ def transport_block(rng, cells, shifts=None, kind=None):
     return "\n".join(lines) + "\n"
 
 
-def multi_sim_input(rng, nsims=None):
+def multi_sim_input(rng, nsims=None, selout=True):
     """an error-free multi-simulation input exercising persistence of definitions between simulations"""
     n = nsims or rng.randint(3, 7)
     sims = []
@@ -295,10 +307,10 @@ def multi_sim_input(rng, nsims=None):
             for k in range(rng.randint(1, 3)):
                 t += solution(rng, k + 1)
                 have_sol.add(k + 1)
-            if rng.random() < 0.7:
+            if selout and rng.random() < 0.7:
                 t += selected_output(rng, None if rng.random() < 0.5 else rng.randint(1, 3))
                 so_defined = True
-            if rng.random() < 0.5:
+            if selout and rng.random() < 0.5:
                 t += user_punch(rng, None, strings=False)
             if rng.random() < 0.4:
                 t += knobs(rng)
@@ -307,6 +319,8 @@ def multi_sim_input(rng, nsims=None):
             sims.append(t + "END\n")
             continue
         choice = rng.choice(["react", "react", "eq", "exch", "surf", "gas", "kin", "mix", "newsol", "selout", "knobs", "ss", "adv", "copy", "runcells"])
+        if choice == "selout" and not selout:
+            choice = "react"
         src = rng.choice(sorted(have_sol))
         if choice == "react":
             t += "USE solution %d\n" % src + reaction(rng, 1)
@@ -378,3 +392,98 @@ def multi_sim_input(rng, nsims=None):
             t += "RUN_CELLS\n -cells %d\n" % src
         sims.append(t + "END\n")
     return "".join(sims)
+
+
+# ------------------------------------------------------------------------------------------------
+# rich reaction states (C10, C14, C02): every entity kind with optional fields, phreeqc.dat vocabulary
+PRELUDE = RATE_SIMPLE + "KNOBS\n -convergence_tolerance 1e-10\n -iterations 300\n"
+
+SURF_MODELS = ["", "-no_edl", "-diffuse_layer 1e-8", "-donnan 1e-8", "-donnan debye_lengths 2", "-only_counter_ions true\n -donnan",
+               "-cd_music", "-ccm"]
+
+
+def surface_full(rng, num, equil, model=None):
+    if model is None:
+        model = rng.choice(SURF_MODELS)
+    lines = ["SURFACE %s" % num, " -equilibrate %s" % equil]
+    w = loguni(rng, 2e-4, 3e-3)
+    area, mass = rng.choice([600, 100, 53]), loguni(rng, 0.1, 2)
+    if model == "-cd_music":
+        lines.append(" Hfo_wOH %s %s %s" % (fmt(w), fmt(area), fmt(mass)))
+        lines.append(" -capacitances 1.0 5.0")
+        lines.append(" -cd_music")
+    elif model == "-ccm":
+        lines.append(" Hfo_wOH %s %s %s" % (fmt(w), fmt(area), fmt(mass)))
+        lines.append(" -ccm %s" % fmt(rng.choice([1.0, 0.8, 2.5])))
+    else:
+        lines.append(" Hfo_wOH %s %s %s" % (fmt(w), fmt(area), fmt(mass)))
+        if rng.random() < 0.6:
+            lines.append(" Hfo_sOH %s" % fmt(w / 40))
+        if model:
+            lines.append(" " + model)
+    return "\n".join(lines) + "\n"
+
+
+def rich_state(rng, ncells=None, allow=None):
+    """returns (prelude, input, cells, kinds) : a multi-simulation input that leaves numbered entities of many kinds in cells 1..n"""
+    n = ncells or rng.randint(1, 3)
+    kinds = set()
+    t = ""
+    for c in range(1, n + 1):
+        sol = solution(rng, c, charge="pH", temp=rng.choice([25, 25, 15, 40]))
+        if rng.random() < 0.08:
+            sol += " -isotope 13C %s\n -isotope 18O %s\n" % (fmt(rng.uniform(-20, 2)), fmt(rng.uniform(-10, 0)))
+            kinds.add("isotopes")
+        if rng.random() < 0.2:
+            sol = sol.replace(" units", " pressure %s\n units" % fmt(rng.choice([1, 5, 20])), 1)
+        t += sol
+        pool = ["eq", "exch", "surf", "gas", "ss", "kin", "react", "temp", "pres", "mix"]
+        if allow is not None:
+            pool = [p for p in pool if p in allow]
+        for k in rng.sample(pool, rng.randint(1, min(5, len(pool)))):
+            kinds.add(k)
+            if k == "eq":
+                t += eq_phases(rng, c, nmax=4)
+                if rng.random() < 0.3:
+                    t += " Kaolinite 0 %s dissolve_only\n" % fmt(loguni(rng, 1e-3, 1e-1))
+            elif k == "exch":
+                t += exchange(rng, c, equil=c if rng.random() < 0.7 else None)
+            elif k == "surf":
+                t += surface_full(rng, c, c)
+            elif k == "gas":
+                t += gas_phase(rng, c)
+            elif k == "ss":
+                t += solid_solution(rng, c)
+            elif k == "kin":
+                t += kinetics(rng, c)
+            elif k == "react":
+                t += reaction(rng, c)
+            elif k == "temp":
+                t += "REACTION_TEMPERATURE %d\n %s\n" % (c, fmt(rng.choice([20, 35, 50])))
+            elif k == "pres":
+                t += "REACTION_PRESSURE %d\n %s\n" % (c, fmt(rng.choice([1, 3, 10])))
+            elif k == "mix":
+                t += "MIX %d\n %d %s\n %d %s\n" % (c, c, fmt(rng.uniform(0.3, 1)), rng.randint(1, c), fmt(rng.uniform(0.1, 0.7)))
+        t += "END\n"
+    # run the cells once so that the saved state is a calculated one (arbitrary history)
+    if rng.random() < 0.7:
+        t += "RUN_CELLS\n -cells 1-%d\n -time_step %s\nEND\n" % (n, fmt(loguni(rng, 10, 1e4)))
+        kinds.add("run_cells")
+    return PRELUDE, t, list(range(1, n + 1)), sorted(kinds)
+
+
+FOLLOW_SELOUT = """SELECTED_OUTPUT 1
+ -reset false
+ -high_precision true
+ -ph true
+ -alkalinity true
+ -ionic_strength true
+ -water true
+ -charge_balance true
+ -totals Na K Ca Mg Cl S(6) C(4) Si Sr Ba Fe Mn Al F Li Br B N(5) P Zn
+ -equilibrium_phases Calcite Dolomite Gypsum Quartz Chalcedony Barite Celestite Fluorite Gibbsite Goethite CO2(g) Kaolinite
+ -gases CO2(g) N2(g) O2(g) CH4(g)
+ -kinetic_reactants zero_rate first_rate
+ -solid_solutions Calcite Strontianite
+ -molalities NaX KX CaX2 MgX2 Hfo_wOH Hfo_wOH2+ Hfo_wO- Hfo_sOH Hfo_wOCa+
+"""
